@@ -58,10 +58,43 @@ def _first_diff(fa, fb):
 
 
 def run(drv, pid, tier, seed, configs):
+    """main pass (all windows of the tier) + 'large' pass (constant-time multiscalar at >= 190 terms)."""
+    configs = configs or drv.ALLCFG
+    if tier == "quick":
+        lcfg = [c for c in configs if c == "avx2"] or configs[:1]
+        lsig = [0, 1]
+    else:
+        lcfg, lsig = configs, [0, 1, 4]
+    import threading
+    scratch0 = tempfile.mkdtemp(prefix="verif-c08-bins-")
+    try:
+        bins = {}
+        for tags in sorted({drv.CONFIGS[c][0] for c in configs}):
+            b = drv.build("c08", tags)
+            if b is None:
+                drv.log("check C08: build failed (harness error)")
+                return 2
+            symf = os.path.join(scratch0, "syms-%s.txt" % tags.replace(",", "_"))
+            with open(symf, "w") as f:
+                subprocess.run(["go", "tool", "nm", "-size", "-sort", "address", b], env=drv.ENV, stdout=f, check=True)
+            bins[tags] = (b, symf)
+        _tool(drv, "c08an")
+        box = {}
+        th = threading.Thread(target=lambda: box.update(large=_pass(drv, pid, tier, seed, lcfg, lsig, "large", bins)))
+        th.start()
+        main = _pass(drv, pid, tier, seed, configs, QUICK_SIGMAS if tier == "quick" else THOROUGH_SIGMAS, tier, bins)
+        th.join()
+        large = box.get("large")
+        return _finish(drv, pid, tier, seed, main, large)
+    finally:
+        shutil.rmtree(scratch0, ignore_errors=True)
+
+
+def _pass(drv, pid, tier, seed, configs, sigmas, wtier, bins):
     t0 = time.time()
     meta = drv.CHECKS[pid]
-    configs = configs or drv.ALLCFG
-    sigmas = QUICK_SIGMAS if tier == "quick" else THOROUGH_SIGMAS
+    tier_arg = wtier
+    tier = wtier
     an = _tool(drv, "c08an")
     scratch = tempfile.mkdtemp(prefix="verif-c08-")
     broken, viols, notes = [], [], []
@@ -70,16 +103,6 @@ def run(drv, pid, tier, seed, configs):
     names = None
     exhaustive = True
     try:
-        bins = {}
-        for tags in sorted({drv.CONFIGS[c][0] for c in configs}):
-            b = drv.build("c08", tags)
-            if b is None:
-                drv.log("check C08: build failed (harness error)")
-                return 2
-            symf = os.path.join(scratch, "syms-%s.txt" % tags.replace(",", "_"))
-            with open(symf, "w") as f:
-                subprocess.run(["go", "tool", "nm", "-size", "-sort", "address", b], env=drv.ENV, stdout=f, check=True)
-            bins[tags] = (b, symf)
         b0 = bins[drv.CONFIGS[configs[0]][0]][0]
         names = [l.split(" ", 1)[1] for l in subprocess.run([b0, "-list", tier], capture_output=True, text=True).stdout.strip().splitlines()]
         jobs = []
@@ -112,6 +135,7 @@ def run(drv, pid, tier, seed, configs):
             if len(base) != len(names):
                 drv.log("BROKEN %s: %d windows traced, %d expected" % (c, len(base), len(names)))
                 return 2
+            base = list(base)
             noisy = [k for k in range(len(base)) if base[k] != base2[k]]
             if noisy:
                 # third opinion: majority of three sigma0 traces
@@ -193,13 +217,28 @@ def run(drv, pid, tier, seed, configs):
             drv.log("BROKEN " + b)
         return 2
     nwin = len(names)
+    return dict(names=names, cov_cfg=cov_cfg, total_eval=total_eval, viols=viols, notes=notes, exhaustive=exhaustive, sigmas=sigmas, configs=configs, wtier=wtier,
+                samples=[dict(window=names[k], config=configs[0], **res[configs[0]][sigmas[0]][0][k]) for k in range(0, nwin, 7)], wall_s=round(time.time() - t0, 1))
+
+
+def _finish(drv, pid, tier, seed, main, large):
+    t_end = time.time()
+    meta = drv.CHECKS[pid]
+    if not isinstance(main, dict) or not isinstance(large, dict):
+        return 2
+    viols = main["viols"] + [dict(v, tier="large") for v in large["viols"]]
+    notes = main["notes"] + large["notes"]
+    nwin, nsig = len(main["names"]), len(main["sigmas"])
     cov = dict(
-        evaluations=total_eval, distinct_nontrivial=nwin * (len(sigmas) - 1), rule=meta["rule"],
-        samples=[dict(window=names[k], config=configs[0], **res[configs[0]][sigmas[0]][0][k]) for k in range(0, nwin, 7)],
-        exhaustive=exhaustive, windows=names, secrets=len(sigmas), per_config=cov_cfg, notes=notes, configurations=configs,
+        evaluations=main["total_eval"] + large["total_eval"],
+        distinct_nontrivial=nwin * (nsig - 1) + len(large["names"]) * (len(large["sigmas"]) - 1), rule=meta["rule"],
+        samples=main["samples"] + large["samples"], exhaustive=main["exhaustive"] and large["exhaustive"],
+        windows=main["names"], large_windows=large["names"], secrets=nsig, per_config=main["cov_cfg"], large_pass=dict(per_config=large["cov_cfg"], secrets=len(large["sigmas"]), configurations=large["configs"]),
+        notes=notes, configurations=main["configs"],
         secret_alphabet="sigma 0..3 = all-0x00/0xff/0x88/0x77 bytes, 4..5 generic (SHA-512 derived); thorough adds the other nibble patterns, 0xa5/0x5a/0x0f/0xf0 and 8 more generic; lookup index x covers [-8,8] completely by sigma 16; selector bit = low bit of a secret byte")
     ev = dict(property_id=pid, tier=tier, seed=seed, level=meta["level"], coverage=cov, assumptions=meta.get("assumptions", []),
-              wall_s=round(time.time() - t0, 2), violations=len(viols))
+              wall_s=round(main["wall_s"] + 0.0, 2), violations=len(viols))
+    os.makedirs(os.path.join(drv.ROOT, "evidence"), exist_ok=True)
     with open(os.path.join(drv.ROOT, "evidence", pid + ".json"), "w") as f:
         json.dump(ev, f, indent=1, sort_keys=True)
     for n in notes:
@@ -210,15 +249,15 @@ def run(drv, pid, tier, seed, configs):
         for v in viols:
             h = hashlib.sha256(json.dumps(v, sort_keys=True).encode()).hexdigest()[:12]
             path = os.path.join(drv.ROOT, "replays", "%s-%s.json" % (pid, h))
-            json.dump(dict(v, property=pid, tier=tier, seed=seed), open(path, "w"), indent=1)
+            json.dump(dict(dict(tier=tier), **dict(v, property=pid, seed=seed)), open(path, "w"), indent=1)
             if v["key"] in seen:
                 continue
             seen.add(v["key"])
             print("VIOLATION property=%s replay=%s" % (pid, path))
             print("  [%s] %s" % (v["config"], v["desc"][:600]))
         return 1
-    print("check %s tier=%s: OK  windows=%d secrets=%d configs=%s evaluations=%d exhaustive=%s wall=%.1fs" % (
-        pid, tier, nwin, len(sigmas), ",".join(configs), total_eval, exhaustive, time.time() - t0))
+    print("check %s tier=%s: OK  windows=%d(+%d large) secrets=%d configs=%s evaluations=%d exhaustive=%s wall=%.1fs" % (
+        pid, tier, nwin, len(large["names"]), nsig, ",".join(main["configs"]), cov["evaluations"], cov["exhaustive"], main["wall_s"]))
     return 0
 
 
